@@ -183,6 +183,8 @@ def _has_tape_level_return(tree):
 
 
 def check_case(case):
+    if case.get('check') == 'opt':
+        return check_opt(case)
     if case.get('check') != 'auth':
         raise ValueError('check')
     lim = tuple(case['limits'])
@@ -429,6 +431,82 @@ def task_soup(ctx):
     hyp.drive(soup(), one, ctx.n(8000, 400000), ctx.seed + 2)
 
 
+def run_optimised(cases):
+    """verdicts of run_auth_scripts for the cases in a fresh interpreter started with -O (assert statements stripped)"""
+    import json, os, subprocess, sys, tempfile
+    from ..util import to_jsonable
+    fd, path = tempfile.mkstemp(prefix='vt-c01-opt-', suffix='.json')
+    try:
+        with os.fdopen(fd, 'w') as f:
+            json.dump(to_jsonable(cases), f)
+        root = os.path.dirname(os.path.dirname(os.path.dirname(os.path.abspath(__file__))))
+        r = subprocess.run([sys.executable, '-O', '-m', 'vt.optworker', path], cwd=root, capture_output=True, text=True, timeout=1200,
+                           env=dict(os.environ, PYTHONDONTWRITEBYTECODE='1', PYTHONHASHSEED='0'))
+        if r.returncode != 0:
+            raise RuntimeError('optimised worker failed: ' + r.stderr[-400:])
+        d = json.loads(r.stdout.strip().splitlines()[-1])
+        if not d['optimised']:
+            raise RuntimeError('worker did not run with -O')
+        return d['verdicts']
+    finally:
+        os.unlink(path)
+
+
+def check_opt(case):
+    scripts, cache, lim = case['scripts'], case.get('cache', {}), tuple(case['limits'])
+    env.pin_clock(1_700_000_000)
+    env.pin_random(b'c01')
+    try:
+        with headroom(1000):
+            normal = _auth(scripts, cache, lim)
+    finally:
+        env.unpin_clock()
+        env.unpin_random()
+    (opt,) = run_optimised([{'scripts': scripts, 'cache': cache, 'limits': list(lim)}])
+    if opt != normal:
+        return [('totality/verdict-depends-on-the-interpreter-optimisation-flag', 'normal %r, python -O %r for %s' % (
+            normal, opt, [x.hex()[:60] for x in scripts]))]
+    return []
+
+
+def task_optimised(ctx):
+    """the verdict does not depend on whether the embedder's interpreter strips assert statements (python -O)"""
+    cases = []
+
+    def collect(t):
+        progs, cache_vals, lim = t
+        try:
+            scripts = [R.encode(render.lower(p)) for p in progs]
+        except R.NotEncodable:
+            return
+        cases.append({'scripts': scripts, 'cache': cache_vals, 'limits': list(lim)})
+    hyp.drive(structured_case(), collect, ctx.n(400, 20000), ctx.seed + 11)
+    outs = builders.builder_outputs(b'c01', '00', 3)
+    sf = {'sigfield1': b'abc' + b'c01', 'sigfield3': b'xyz', 'timestamp': 15}
+    for w, l in (('single_wit', 'single_lock'), ('single_wit2', 'single_lock2'), ('tr_key', 'tr'), ('dk_wit', 'dk_lock'), ('htlc_wit', 'htlc')):
+        cases.append({'scripts': [outs[w], outs[l]], 'cache': sf, 'limits': [1024, 1024, 128]})
+        cases.append({'scripts': [bytes([C['OP_PUSH1'], 64]) + bytes(64), outs[l]], 'cache': sf, 'limits': [1024, 1024, 128]})
+        cases.append({'scripts': [outs[l]], 'cache': sf, 'limits': [1024, 1024, 128]})
+    normal = []
+    for c in cases:
+        env.pin_clock(1_700_000_000)
+        env.pin_random(b'c01')
+        try:
+            with headroom(1000):
+                normal.append(_auth(c['scripts'], c['cache'], tuple(c['limits'])))
+        finally:
+            env.unpin_clock()
+            env.unpin_random()
+    opt = run_optimised(cases)
+    for c, a, b in zip(cases, normal, opt):
+        ctx.case(('opt', c['scripts'], c['cache'], c['limits']), a is False)
+        ctx.count('optimised:%s' % ('same' if a == b else 'DIFFERENT'))
+        ctx.count('optimised-normal-verdict:%s' % a)
+        if a != b:
+            ctx.fail('opt', 'totality/verdict-depends-on-the-interpreter-optimisation-flag', dict(c, check='opt'),
+                     'normal %r, python -O %r for %s' % (a, b, [x.hex()[:60] for x in c['scripts']]))
+
+
 def task_errors(ctx):
     """every way an instruction can fail (interpreter, Python and libsodium exception types) somewhere in the list"""
     from vt.props import c06
@@ -463,6 +541,7 @@ def task_errors(ctx):
 
 
 TASKS = {
+    'optimised': (task_optimised, 1, 4),
     'errors': (task_errors, 8, 16),
     'structured': (task_structured, 14, 16),
     'builders': (task_builders, 6, 16),
